@@ -86,14 +86,32 @@ def run(scn):
         rp = LiteDRAMNativePort("read", 26, dw)
 
     class DUT(Module):
-        def __init__(self):
-            self.submodules.gen = _LiteDRAMBISTGenerator(wp)
-            self.submodules.chk = _LiteDRAMBISTChecker(rp)
-    dut = DUT()
-    sim = Sim(dut, {"sys": 10000})
-    viol = Violations(sim)
+        def __init__(self, wp_, rp_):
+            self.submodules.gen = _LiteDRAMBISTGenerator(wp_)
+            self.submodules.chk = _LiteDRAMBISTChecker(rp_)
+    core = scn.get("core")
     mw, mr = scn["wmem"], scn["rmem"]
-    if axi:
+    if core:
+        # variant "core": generator and checker on a write and a read port of the real core, DramRef as DRAM
+        from ..corebench import core_host, CorePortView
+        box = {}
+
+        def attach(top, ports):
+            box["dut"] = DUT(ports[0], ports[1])
+            top.submodules.frontend = box["dut"]
+        tb, sim, viol, dram = core_host(core, Violations, attach)
+        dut = box["dut"]
+        wp, rp = tb.ports
+        memw = CorePortView(sim, tb, dram, wp, name="wmem")
+        memr = CorePortView(sim, tb, dram, rp, name="rmem")
+        wordkey = lambda wa: tb.amap.fwd_c(wa & ((1 << tb.amap.aw) - 1))
+    else:
+        dut = DUT(wp, rp)
+        sim = Sim(dut, {"sys": 10000})
+        viol = Violations(sim)
+    if core:
+        pass
+    elif axi:
         memw = AXISlave(sim, wp, nb, aw_ready=mw.get("cmd_ready"), w_ready=mw.get("w_ready"))
         memr = AXISlave(sim, rp, nb, ar_ready=mr.get("cmd_ready"), r_lat=mr.get("extra"))
         memr.mem = memw.mem
@@ -105,8 +123,9 @@ def run(scn):
         memr = NativeMemSlave(sim, rp, cmd_ready=mr.get("cmd_ready"), max_out=mr.get("max_out", 8), wl1=mw.get("wl1", 1), rl1=mw.get("rl1", 3),
                               extra=mr.get("extra"), viol=viol, name="rmem", group=grp)
         wordkey = lambda wa: wa
-    sim.add_agent("sys", memw)
-    sim.add_agent("sys", memr)
+    if not core:
+        sim.add_agent("sys", memw)
+        sim.add_agent("sys", memr)
     cfg = scn["cfg"]
     nwords = cfg["length"] // nb
     seq, ashift = model(cfg, nb, nwords)
@@ -121,7 +140,7 @@ def run(scn):
     phase = {"p": "gen_reset", "t": 0}
     faults = list(scn.get("faults") or [])
     during = sorted([f for f in faults if f.get("when") == "during"], key=lambda f: f["at_read"])
-    mem = memw.mem
+    mem = dram.store if core else memw.mem
     default = (lambda wa: init_word(wa, nb))
 
     def corrupt(f):
@@ -129,7 +148,7 @@ def run(scn):
         k = wordkey(wa)
         cur = mem.get(k)
         if cur is None:
-            cur = default(wa) if not axi else init_word(k, nb)
+            cur = dram.default_word(k) if core else (default(wa) if not axi else init_word(k, nb))
         mem[k] = cur ^ (f["xor"] & ((1 << dw) - 1))
         lo, hi = cfg["base"] >> ashift, cfg["end"] >> ashift
         if not (lo <= wa < hi):
@@ -195,6 +214,8 @@ def run(scn):
     stall = sum(a + b for a, b in pats) + 1
     lat = max(mw.get("extra") or [0]) + max(mr.get("extra") or [0]) + mw.get("rl1", 3) + 10
     cap = 600 + len(plan) * (nwords * (stall + 4) + (nwords // 4 + 4) * lat + 40)
+    if core:
+        cap = 3 * cap + 4000 + 60 * nwords * len(plan)
     cyc = 0
     while cyc < cap and phase["p"] != "end":
         sim.step()
@@ -239,6 +260,7 @@ def run(scn):
                     viol.add("error_count", "checker run %d reports %s errors; %d sequence positions returned a word different from the generated one"
                              % (ri, r_.get("errors"), exp))
                 stats["chk_words"] += len(rl)
+    stats["core_variant_runs"] = 1 if core else 0
     return {"violations": viol.v, "stats": stats, "cycles": cyc, "sim_ps": sim.now, "digest": sim.digest(),
             "nontrivial": stats["gen_words"] >= 2 and stats["chk_words"] >= 2,
             "states": ["%s dw%d rd%d ra%d" % (d["port"], dw, cfg["random_data"], cfg["random_addr"])],
@@ -264,10 +286,16 @@ def witness(fid):
 def gen(rng, tier, index):
     port = rng.choice(["native", "native", "axi"])
     dw = rng.choice([8, 16, 32, 32, 64, 128, 256])
+    core = None
+    if port == "native" and rng.random() < 0.15:
+        from .. import coregen
+        core, info = coregen.gen_core(rng, nports=2, nranks=1)
+        core["ports"] = [{"mode": "write"}, {"mode": "read"}]
+        dw = info["data_bytes"] * 8
     nb = dw // 8
     rbits = rng.choice([3, 4, 5, 6, 8])                       # range in words = 2**rbits
     rng_words = 1 << rbits
-    base = rng.choice([0, rng_words * nb * rng.randint(1, 50), 0x10000 * nb])
+    base = rng.choice([0, rng_words * nb * rng.randint(1, 50), 0x10000 * nb if not core else rng_words * nb * 3])
     end = base + rng_words * nb
     random_addr = rng.random() < 0.4
     random_data = rng.random() < 0.6
@@ -275,7 +303,7 @@ def gen(rng, tier, index):
         nwords = rng.choice([1, 4, rng_words // 2, rng_words, 2 * rng_words])
     else:
         nwords = rng.choice([1, 2, rng_words // 2, rng_words - 1, rng_words])
-    nwords = max(1, min(nwords, 400 if tier == "quick" else 2000))
+    nwords = max(1, min(nwords, (400 if tier == "quick" else 2000) if not core else 120))
     cfg = {"base": base, "end": end, "length": nwords * nb, "random_data": int(random_data), "random_addr": int(random_addr)}
     d = {"port": port, "dw": dw}
     seq, ashift = model(cfg, nb, nwords)
@@ -296,4 +324,7 @@ def gen(rng, tier, index):
         return {"cmd_ready": gen_pattern(rng), "max_out": rng.randint(3, 24), "wl1": wl1, "rl1": rng.randint(wl1 + 1, 14),
                 "extra": gen_extra(rng), "w_ready": gen_pattern(rng)}
     plan = rng.choice([["gen", "chk"], ["gen", "chk"], ["gen", "chk", "chk"], ["gen", "gen", "chk"], ["chk", "gen", "chk"], ["gen", "chk", "gen", "chk"]])
-    return {"dut": d, "cfg": cfg, "faults": faults, "plan": plan, "wmem": mem(), "rmem": mem()}
+    scn = {"dut": d, "cfg": cfg, "faults": faults, "plan": plan, "wmem": mem(), "rmem": mem()}
+    if core:
+        scn["core"] = core
+    return scn
